@@ -194,6 +194,11 @@ fn main() {
                 None => legs::dhcpconf::run_c11(seed, args.thorough(), shards),
             }
         }
+        "gen-relay-cases" => {
+            legs::relay::gen_cases(&args.str("prop", "C03"), seed, args.u64("n", 400), &args.str("out", "/dev/stdout"));
+            return;
+        }
+        "judge-relay" => legs::relay::judge(&args.str("prop", "C03"), &args.str("cases", ""), &args.str("events", "")),
         "consts" => {
             println!("{}", legs::dnsmisc::consts());
             return;
